@@ -230,4 +230,62 @@ def chunk (b : Bytes) : List Nat → List Bytes
   | [] => if b.isEmpty then [] else [b]
   | k :: ks => b.take k :: chunk (b.drop k) ks
 
+/-! ## what a checkpoint contains and what `load` restores (`Checkpointer.__init__/save/load_from_path`)
+
+Keys of the key universe used by the trainer: 0 `model`, 1 `sensitivity_model`, 2 another `*model`, 3 `optimizer`,
+4 `lr_scheduler`, 5 `scaler`, 6 `__author__` (metadata `__x__`), 7 an object that is not a `HasStateDict`
+(e.g. a number, or a `torch.amp.GradScaler` that is not a `torch.cuda.amp.GradScaler`).  An object's state is
+abstracted to an identifier. -/
+namespace Bundle
+
+abbrev Key := Nat
+/-- `re.match("^.*model$", key)` -/
+def isModelKey (k : Key) : Bool := k ≤ 2
+/-- `key.startswith("__") and key.endswith("__")` -/
+def isMeta (k : Key) : Bool := k == 6
+/-- `isinstance(obj, get_args(HasStateDict))` -/
+def hasStateDict (k : Key) : Bool := k ≤ 5
+
+/-- key ↦ state; `model` (key 0) is always there -/
+abbrev Objs := List (Key × Nat)
+
+/-- the dict written by `save`: the model, metadata as is, every `HasStateDict`; anything else is skipped with a warning -/
+def save (objs : Objs) : Objs := objs.filter fun kv => kv.1 == 0 || isMeta kv.1 || hasStateDict kv.1
+
+inductive Mode where
+  | full                         -- `load(iteration)`
+  | onlyModels                   -- `load_models_from_file(path)`
+  | select (keys : List Key)     -- `load(iteration, checkpointable_objects={key: …})` — only the *keys* matter
+deriving DecidableEq, Repr
+
+/-- does `load_from_path` restore key `k` (other than `model`, which is always restored)? -/
+def restores (file : Objs) (mode : Mode) (k : Key) : Bool :=
+  let requested := match mode with
+    | .full | .onlyModels => k != 0
+    | .select keys => keys.contains k
+  let skipped := match mode with
+    | .onlyModels => !isModelKey k
+    | _ => false
+  requested && !skipped && (file.lookup k).isSome && !isMeta k
+
+inductive Err where
+  | keyError
+deriving DecidableEq, Repr
+
+/-- `load_from_path`: new states of the loader's objects, or the `KeyError` raised by `self.checkpointables[key]` for a
+requested key the loader does not hold (`model` itself is not in `self.checkpointables`) -/
+def load (objs file : Objs) (mode : Mode) : Except Err Objs :=
+  let missing := match mode with
+    | .select keys => keys.any fun k => restores file mode k && (k == 0 || (objs.lookup k).isNone)
+    | _ => false
+  if missing then .error .keyError else
+  .ok (objs.map fun kv =>
+    if kv.1 == 0 || restores file mode kv.1 then (kv.1, (file.lookup kv.1).getD kv.2) else kv)
+
+/-- the dict `load` returns: whatever was not consumed -/
+def leftover (file : Objs) (mode : Mode) : List Key :=
+  (file.filter fun kv => !(restores file mode kv.1)).map (·.1)
+
+end Bundle
+
 end DirectVerif.Ckpt
